@@ -88,6 +88,10 @@ class RecModel(torch.nn.Module):
 			return y, (y * 2)[:, :2, None].expand(-1, -1, 2)
 		if self.kind == "list":
 			return [y[:, 0], y + 1, y[:, 1:]]
+		if self.kind == "mixed":
+			# outputs of several dtypes: exact concatenation keeps each
+			return (y.to(torch.float32), (y * 1048577).to(torch.int64),
+				y[:, 0] > 150, y)
 		raise AssertionError
 
 
@@ -109,7 +113,8 @@ class BNModel(torch.nn.Module):
 		self.modes = []
 
 	def forward(self, X, *args):
-		self.modes.append((self.training, torch.is_grad_enabled()))
+		self.modes.append((self.training or self.bn.training or
+			self.drop.training, torch.is_grad_enabled()))
 		h = self.drop(self.bn(self.conv(X)))
 		y = self.lin(h.flatten(1))
 		for a in args:
@@ -131,7 +136,8 @@ def per_example(model, X, args, dtype):
 
 def same(y, ref, exact=True):
 	if isinstance(ref, torch.Tensor):
-		if not isinstance(y, torch.Tensor) or y.shape != ref.shape:
+		if not isinstance(y, torch.Tensor) or y.shape != ref.shape or \
+			y.dtype != ref.dtype:
 			return False
 		return torch.equal(y, ref) if exact else torch.allclose(y, ref,
 			rtol=1e-11, atol=1e-11)
@@ -157,7 +163,18 @@ def run_case(cls, params, rec):
 
 	if kind == "bn":
 		model = BNModel(params.get("mseed", 0))
-		model.train()
+		state = params.get("start_state", "train")
+		if state == "train":
+			model.train()
+		elif state == "eval":
+			model.eval()
+		elif state == "mixed-dropout":     # the MC-dropout idiom
+			model.eval()
+			model.drop.train()
+		else:                              # "mixed-bn"
+			model.eval()
+			model.bn.train()
+		rec.setadd("bn_model_start_states", state)
 		torch.set_grad_enabled(True)
 		Xf = X.type(torch.float64)
 		mon = gen.Immutable(X=Xf, **{"arg%d" % j: a for j, a in
@@ -275,7 +292,7 @@ def run_unit(unit, rec):
 		c = 0
 		for b in range(1, n + 4):
 			for k in range(0, 4):
-				for kind in ("tensor", "tuple", "list"):
+				for kind in ("tensor", "tuple", "list", "mixed"):
 					c += 1
 					run_case("grid", {"n": n, "batch_size": b, "n_args": k,
 						"kind": kind, "xdtype": ("int8", "float32",
@@ -296,4 +313,6 @@ def run_unit(unit, rec):
 		for b in range(1, n + 4):
 			for k in (0, 1, 2):
 				run_case("bn-dropout", {"n": n, "batch_size": b, "n_args": k,
-					"kind": "bn", "mseed": unit["seed"] + n}, rec)
+					"kind": "bn", "mseed": unit["seed"] + n,
+					"start_state": ("train", "eval", "mixed-dropout",
+					"mixed-bn")[(n + b + k) % 4]}, rec)
